@@ -83,7 +83,7 @@ fn specs() -> Vec<CheckSpec> {
         profile: Profile::Core,
         mk: mk_c03,
         level: "exploration",
-        rule: "HIST every swap / swap_v2 that lands (planned on a view that went stale while in flight) is checked from the trader's balance deltas and the pool account; one third are replayed on forks with threshold = realised, realised-1, realised+1; a case is one (instruction, direction, mode, explicit limit, stopped at limit, fully filled, threshold class, tick spacing) tuple of a successful swap",
+        rule: "HIST every swap / swap_v2 / two-hop (v1, v2) that lands (planned on a view that went stale while in flight) is checked from the trader's balance deltas and the pool account; one third are replayed on forks with threshold = realised, realised-1, realised+1; a case is one (instruction, direction, mode, explicit limit, stopped at limit, fully filled, threshold class, tick spacing) tuple of a successful swap",
         quick_runs: 400,
         thorough_secs: 600,
         assumptions: COMMON_ASSUMPTIONS,
@@ -146,7 +146,7 @@ fn specs() -> Vec<CheckSpec> {
     },
     CheckSpec {
         id: "C12",
-        profile: Profile::Core,
+        profile: Profile::Rewards,
         mk: mk_c12,
         level: "exploration",
         rule: "HIST every increase/decrease (v1, v2) that lands - successful or not, including under an injected CPI failure - is re-executed on a fork of its pre-state through the Anchor implementation still in the tree (try_accounts -> Context -> handler -> exit) and through the live Pinocchio routing; success <=> success, equal program error codes (>= 6000), and on success every account byte and lamport (pool, position, both tick arrays incl. dynamic resize and rent movement, vaults, user accounts), the CPI sequence and the emitted event must be identical; every whirlpool instruction is additionally executed through both the real entrypoint and the public handlers and compared; a case is one (instruction, live outcome, twin outcome, price region, #dynamic arrays, spacing) tuple",
@@ -157,7 +157,7 @@ fn specs() -> Vec<CheckSpec> {
     },
     CheckSpec {
         id: "C13",
-        profile: Profile::Core,
+        profile: Profile::Rewards,
         mk: mk_c13,
         level: "exploration",
         rule: "HIST (1) after every landed instruction each touched dynamic tick array is walked from raw bytes (flag byte 0/1, 112 more bytes iff 1, bitmap bit i <=> slot i initialised, walk ends exactly at data_len = 148 + 112*popcount, rent exempt), Anchor's dynamic accessors (get_tick, get_next_init_tick_index both directions, off-spacing ticks) are compared with Anchor's fixed accessors on the decoded content and with the raw bytes for all 88 slots, and rent must only move between the position and its arrays; (2) twin runs: every seed is run three times with fixed / dynamic / mixed arrays and every transaction outcome plus the observable state after every transaction (token accounts, pool and position bytes, decoded tick contents) must be equal; a case is one (instruction, created/grown/shrunk/rewritten, #initialised, boundary slot) tuple or one twin comparison",
